@@ -268,6 +268,10 @@ impl Shard {
                 Reply::Hung => {
                     self.workers[i] = None;
                     self.hung.store(true, Ordering::SeqCst);
+                    // keep the tape of the case that hit the watchdog (inconclusive, not a violation)
+                    let path = format!("{}/out/hangs/{}-{}.json", verif_dir(), self.prop_id, build.name());
+                    write_replay_file(&path, self.prop_id, tape, "", "watchdog: no answer within the time limit", "hang");
+                    eprintln!("watchdog: tape saved to {}", path);
                     let mut o = Outcome::new(format!("tape {}", hex(tape)));
                     o.evals = 0;
                     o.label("watchdog");
